@@ -13,6 +13,7 @@ import (
 	"runtime"
 	"sync"
 	"testing"
+	"testing/iotest"
 
 	"github.com/ipfs/go-cid"
 	"github.com/ipni/go-libipni/announce"
@@ -56,8 +57,23 @@ func genAddr(t *rapid.T) addr {
 		return addr{Kind: "unknown", Bytes: append(uv(code), gen.Bytes(0, 12).Draw(t, "utail")...)}
 	case 2:
 		return addr{Kind: "empty"}
+	case 3:
+		// a valid address that already ends in some peer's /p2p component (a relay, another identity, or the
+		// publisher's own)
+		base := rapid.SampledFrom(validAddrTexts[:4]).Draw(t, "ptext")
+		other := gen.Keys()[rapid.IntRange(0, len(gen.Keys())-1).Draw(t, "pkey")].ID
+		return addr{Kind: "valid", Bytes: multiaddr.StringCast(base + "/p2p/" + other.String()).Bytes()}
 	default:
 		return addr{Kind: "valid", Bytes: multiaddr.StringCast(rapid.SampledFrom(validAddrTexts).Draw(t, "atext")).Bytes()}
+	}
+}
+
+// chunked returns readers that hand out the same bytes in pieces, as a network stream or an HTTP body does.
+func chunked(b []byte) map[string]io.Reader {
+	return map[string]io.Reader{
+		"one byte at a time":        iotest.OneByteReader(bytes.NewReader(b)),
+		"half of the request":       iotest.HalfReader(bytes.NewReader(b)),
+		"data together with io.EOF": iotest.DataErrReader(bytes.NewReader(b)),
 	}
 }
 
@@ -183,6 +199,16 @@ func runMsg(c msgCase) pbt.Result {
 	}
 	if d := msgEq(m, m2); d != "" {
 		return merge(res, pbt.Failf("CBOR round trip changed %s: %+v -> %+v", d, m, m2))
+	}
+	// the decoder reads from any io.Reader: what it decodes must not depend on how the bytes are sliced
+	for how, rd := range chunked(enc) {
+		var mc message.Message
+		if err := mc.UnmarshalCBOR(rd); err != nil {
+			return merge(res, pbt.Failf("UnmarshalCBOR from a reader that delivers %s: %v (the same bytes decode from a bytes.Reader)", how, err))
+		}
+		if d := msgEq(m, mc); d != "" {
+			return merge(res, pbt.Failf("UnmarshalCBOR from a reader that delivers %s changed %s: got %+v, want %+v", how, d, mc, m))
+		}
 	}
 	// decoding into a Message that already holds another message gives the same result: the decoder resets
 	// its receiver (receivers of a stream of announcements reuse one variable)
@@ -321,7 +347,7 @@ func merge(base, f pbt.Result) pbt.Result {
 
 func TestC10_RoundTrip(t *testing.T) {
 	pbt.Run(t, pbt.Config{Prop: "C10", Unit: "TestC10_RoundTrip",
-		Rule: "messages: any defined CID, 0..32 address byte strings (valid multiaddrs, multiaddrs with unregistered protocol codes, empty strings), extra data 0..4096 B, OrigPeer absent or a peer-ID string; oracles: CBOR and JSON round trips give an equal message (nil == empty), also when the CBOR is decoded into a Message that already holds another message, 3- vs 4-field CBOR form chosen by OrigPeer, GetAddrs skips unknown-protocol addresses and keeps the rest in order, httpsender Send/SendJson (1 or 2 URLs, optional sender-level extra data) put on the wire a message a receiver decodes to the original with /p2p/<publisher> appended to every known-protocol address. Non-trivial: >= 1 address and (extra data or OrigPeer); distinct by case.",
+		Rule: "messages: any defined CID, 0..32 address byte strings (valid multiaddrs, some already ending in a /p2p component, multiaddrs with unregistered protocol codes, empty strings), extra data 0..4096 B, OrigPeer absent or a peer-ID string; oracles: CBOR and JSON round trips give an equal message (nil == empty), also when the CBOR arrives through readers that deliver it in pieces, also when the CBOR is decoded into a Message that already holds another message, 3- vs 4-field CBOR form chosen by OrigPeer, GetAddrs skips unknown-protocol addresses and keeps the rest in order, httpsender Send/SendJson (1 or 2 URLs, optional sender-level extra data) put on the wire a message a receiver decodes to the original with /p2p/<publisher> appended to every known-protocol address. Non-trivial: >= 1 address and (extra data or OrigPeer); distinct by case.",
 		Assumptions: []string{"messages with an empty address byte string are not sent (GetAddrs legitimately fails on them)", "loopback HTTP capture server"},
 	}, genMsg, runMsg)
 }
